@@ -262,6 +262,19 @@ impl Monitor for C01 {
             corrupt: false,
             tiny: false,
         };
+        if k == 2 || k == 4 {
+            // scale: a file with a zlib member whose plaintext has tens of MiB / more than 128 MiB
+            let mut r = Rng::derive(self.seed, 0x0105, k, 0);
+            if let Some(st) = streams::scale_stream(&mut r, (k - 2) / 2) {
+                let mut f = wrap::junk_clean(&mut r, 100);
+                f.extend(wrap::zlib_wrap(&st.bytes, &st.plain, 0x9C));
+                f.extend(wrap::junk_clean(&mut r, 50));
+                ctx.count("cases:scale");
+                ctx.count(&format!("scale:plaintext_{}MiB", st.plain.len() >> 20));
+                Self::judge(&f, &format!("zlib member: {}", st.recipe), ctx, Opts { spans: false, ..full });
+            }
+            return;
+        }
         if k < self.n_edge {
             let mut r = Rng::derive(self.seed, 0x0101, k, 0);
             let g = wrap::edge_case(k, &mut r);
